@@ -1,4 +1,5 @@
 import DriverLib.Basic
+import DriverLib.CallShape
 import QV.Model.States
 open Lean Drv QV
 
@@ -32,9 +33,36 @@ def eval (j : Json) : R Json := do
       ("probZ", fOut (Wave.probability am v Z))]
   return Json.mkObj [("rows", .arr outRows), ("Z", fOut Z)]
 
+/-- op `c01.callform`: a public evaluation method on a TENSOR argument, through the model of `auto_unsqueeze_args`.
+in : fn ("energy"|"amplitude"|"phase"|"psi_cplx"|"psi_pos"|"probability"|"phase_pos"), n, h, am, ph?, Z?, x = {shape, rows}
+out: {shape, data} | {error} -/
+def callform (j : Json) : R Json := do
+  let fn ← jStr (← fld j "fn")
+  let n ← jNat (← fld j "n")
+  let h ← jNat (← fld j "h")
+  let am ← parseRBM (← fld j "am") n h
+  let x ← parseFT (← fld j "x") n
+  match fn with
+  | "energy" => return ftOut encScalar (am.effectiveEnergy x)
+  | "amplitude" => return ftOut encScalar (Wave.amplitudeCall am x)
+  | "phase" => do
+    let ph ← parseRBM (← fld j "ph") n h
+    return ftOut encScalar (Wave.phaseCall ph x)
+  | "psi_cplx" => do
+    let ph ← parseRBM (← fld j "ph") n h
+    return ftOut encPair (Wave.psiCplxCall am ph x)
+  | "psi_pos" => return ftOut encPair (Wave.psiPosCall am x)
+  | "psi_pos_base" => return ftOut encPair (Wave.psiBase am Wave.phasePosCall x)
+  | "probability" => do
+    let Z ← jFloat (← fld j "Z")
+    return ftOut encScalar (Wave.probabilityCall am x Z)
+  | "phase_pos" => return ftOut encScalar (Wave.phasePosCall (α := Float) x)
+  | _ => throw s!"c01.callform: unknown fn {fn}"
+
 def handle (op : String) (j : Json) : Option (R Json) :=
   match op with
   | "c01.eval" => some (eval j)
+  | "c01.callform" => some (callform j)
   | _ => none
 
 end Drv.C01
